@@ -326,7 +326,19 @@ class AlignExponents(Contract):
     def apply(self, ex, args, kw, node):
         polys = list(args)
         if not all(isinstance(p, Poly) for p in polys):
-            raise U("align_exponents of non-ndpoly operands", node)
+            # the first statement converts every operand with aspolynomial: a numeric array becomes the constant polynomial
+            # array with that coefficient (input kind `array` of numpoly.polynomial, proved in contracts/polynomial.py)
+            from engine.polymodel import Arr
+            from contracts.polynomial import Polynomial
+            conv = []
+            for p in polys:
+                if isinstance(p, Poly):
+                    conv.append(p)
+                elif isinstance(p, Arr) and p.kind == "real":
+                    conv.append(Polynomial().apply(ex, [p], {}, node))
+                else:
+                    raise U("align_exponents of operands that are neither ndpoly nor numeric arrays", node)
+            polys = conv
         res = aligned_family(ex, polys, base=ex.ctx.fresh("ae"), same_shape=False)
         hook = getattr(ex, "hooks", {}).get("after_align")
         if hook:
